@@ -339,7 +339,7 @@ class Gen:
         r = self.r
         obs = [("index_valid",), ("iter",)]
         k = r.choice(["ooo_batch", "carriers", "bad_batch", "stale_handle", "torn_update", "handle_times", "linebreaks", "zones",
-                      "remove_first", "ooo_then_remove", "nested_not", "reset_then_time", "nan_fields", "epoch", "sparse_write", "sparse_write", "future_untimed", "range_ends", "noop_compose", "substring_names", "same_size", "one_us_late", "getter_memo", "handle_sorted", "odd_strings", "shared_maps", "hash_twins", "same_count", "redate", "fold_twins", "big_ties", "handle_unset", "same_row_twice"])
+                      "remove_first", "ooo_then_remove", "nested_not", "reset_then_time", "nan_fields", "epoch", "sparse_write", "sparse_write", "future_untimed", "range_ends", "noop_compose", "substring_names", "same_size", "one_us_late", "mixed_quoting", "getter_memo", "handle_sorted", "odd_strings", "shared_maps", "hash_twins", "same_count", "redate", "fold_twins", "big_ties", "handle_unset", "same_row_twice"])
         pref = self.profile.get("scenario_pref")
         if pref and r.random() < 0.5:
             k = r.choice(pref)
@@ -771,6 +771,23 @@ class Gen:
                         ("insert", [self.point(a - 1)], None), ("index_valid",),
                         ("count", ("S", "time", [], ("cmp", "<", ("t", a))), None), ("contains", ("S", "time", [], ("cmp", "==", ("t", a - 1))), None),
                         ("count", ("S", "time", [], ("cmp", "<=", ("t", a - 1))), None), ("get_timestamps", None)]
+        elif k == "mixed_quoting":
+            # a file written over several sessions with different (read-compatible) quoting policies - the driver reopens with QUOTE_ALL every other
+            # time: then the NEWEST rows are removed through the index, the rest re-serialised
+            a = self.points_batch(r.choice([2, 3]), in_order=True)
+            t_last = a[-1]["time"]
+            b = self.points_batch(r.choice([2, 3]), in_order=True, start=t_last + SEC)
+            c = self.points_batch(2, in_order=True, start=b[-1]["time"] + SEC)
+            ops += [("insert", a, None, "multiple")] + self.file_obs()
+            if csv:
+                ops += [("reopen", True)]
+            ops += [("insert", b, None, "multiple")] + self.file_obs()
+            if csv:
+                ops += [("reopen", True)]
+            ops += [("insert", c, None, "multiple"), ("count", ("noop", "tags"), None), ("index_valid",),
+                    ("remove", ("S", "time", [], ("cmp", ">=", ("t", r.choice([c[0]["time"], c[-1]["time"], b[-1]["time"]])))), None)] + self.file_obs() + obs
+            if csv:
+                ops += [("reopen", r.random() < 0.5), ("all", False)]
         elif k == "shared_maps":
             # a batch of points built from ONE tags mapping and ONE fields mapping (the harness hands equal mappings of a batch over as one
             # object): updates of a subset, of all, unsets, and an update that fails part-way must treat every point as having its own
